@@ -260,7 +260,7 @@ pub fn classify_hash(c: &HashCase) -> Classes {
 
 fn file_strategy(tier: Tier) -> BoxedStrategy<FileSpec> {
     let max = tier.pick(200_000u32, 4_000_000u32);
-    (0u8..NAMES.len() as u8, prop_oneof![2 => Just(0u32), 3 => 1u32..=3000, 3 => 16380u32..=16390, 2 => 0u32..=70_000, 1 => 0u32..=max], gen::content())
+    (0u8..NAMES.len() as u8, prop_oneof![4 => Just(0u32), 6 => 1u32..=3000, 6 => 16380u32..=16390, 4 => 0u32..=70_000, 2 => 0u32..=max, 1 => (1u32 << 20)..=(3u32 << 20)], gen::content())
         .prop_map(|(name, len, content)| FileSpec { name, len, content })
         .boxed()
 }
@@ -275,7 +275,7 @@ fn hash_strategy(tier: Tier) -> BoxedStrategy<HashCase> {
     (
         prop::collection::vec(file_strategy(tier), 1..=4),
         mode,
-        prop::option::weighted(0.5, 0u16..=300),
+        prop::option::weighted(0.5, prop_oneof![12 => 0u16..=300, 1 => 0u16..=65535]),
         prop::option::weighted(0.4, gen::position_lattice()),
         any::<bool>(),
         prop::option::weighted(0.4, crate::gen::select(vec![1u8, 2, 5])),
@@ -359,7 +359,7 @@ pub fn check_stdin(c: &StdinCase) -> Result<(), String> {
 
 fn stdin_strategy(_tier: Tier) -> BoxedStrategy<StdinCase> {
     (
-        prop_oneof![2 => Just(0u32), 3 => 1u32..=3000, 2 => 65_530u32..=65_540, 2 => 0u32..=200_000],
+        prop_oneof![4 => Just(0u32), 6 => 1u32..=3000, 4 => 65_530u32..=65_540, 4 => 0u32..=200_000, 1 => (1u32 << 20)..=(3u32 << 20)],
         gen::content(),
         any::<bool>(),
         prop::option::weighted(0.3, gen::ctx_spec(100, false)),
